@@ -383,8 +383,9 @@ def load_known():
 
 
 def tier_of(name):
-    """quick = Emit-mode harness on the full recording error, plus every Check-mode twin for C04."""
-    if name.endswith("_zst") or re.search(r"_t$", name) or "_thorough" in name:
+    """quick = every harness except the larger-bound variants (`_t`); the zero-sized-error instances (`_zst`)
+    are cheap and part of quick."""
+    if re.search(r"_t$", name) or "_thorough" in name:
         return "thorough"
     return "quick"
 
